@@ -70,6 +70,14 @@ type Options struct {
 	NodeID                string                     // "node-verif" when empty
 	NoConnState           bool                       // do not wire ConnectionStateStore / TunnelRoutingTable
 	KeepLogs              bool                       // leave the process-wide default logger alone
+	// Storage, when set, is the storage this node's server holds (instead of a private in-memory hybrid
+	// storage): several Servers given storages over ONE shared store form a cluster whose nodes share
+	// client configs, client runtime state, id generators ... exactly as a deployment does. The Server
+	// does not close it.
+	Storage storage.Storage
+	// MasterKey (base64, 32 bytes) for the SecretKeyManager; random when empty. Nodes sharing a store must
+	// share it (stored credentials are encrypted with it).
+	MasterKey string
 }
 
 // Server is one in-process server assembly.
@@ -112,8 +120,11 @@ func NewServer(o Options) (*Server, error) {
 	// StorageComponent (createMemoryStorage): hybrid storage, memory cache, no persistence.
 	hc := &storage.HybridStorageConfig{CacheType: "memory", EnablePersistent: false, HybridConfig: storage.DefaultHybridConfig()}
 	hc.HybridConfig.EnablePersistent = false
-	st, err := storage.NewStorageFactory(ctx).CreateStorage(hc)
-	if err != nil {
+	var st storage.Storage
+	var err error
+	if o.Storage != nil {
+		st = o.Storage
+	} else if st, err = storage.NewStorageFactory(ctx).CreateStorage(hc); err != nil {
 		return fail(fmt.Errorf("storage: %w", err))
 	}
 	s.Storage = st
@@ -151,7 +162,11 @@ func NewServer(o Options) (*Server, error) {
 	if _, err := rand.Read(mk); err != nil {
 		return fail(err)
 	}
-	s.Keys, err = security.NewSecretKeyManager(&security.SecretKeyConfig{MasterKey: base64.StdEncoding.EncodeToString(mk)})
+	masterKey := base64.StdEncoding.EncodeToString(mk)
+	if o.MasterKey != "" {
+		masterKey = o.MasterKey
+	}
+	s.Keys, err = security.NewSecretKeyManager(&security.SecretKeyConfig{MasterKey: masterKey})
 	if err != nil {
 		return fail(fmt.Errorf("secret key manager: %w", err))
 	}
@@ -518,6 +533,7 @@ func (s *Server) CredentialState(clientID int64) (bound, expiryPast bool, err er
 type faultyCloud struct {
 	session.CloudControlAPI
 	down atomic.Bool
+	hold atomic.Pointer[func(clientID int64, connID string)] // one-shot, see HoldNextDisconnect
 }
 
 var errCloudDown = errors.New("srvkit: injected cloud-control outage")
@@ -529,6 +545,9 @@ func (f *faultyCloud) DisconnectClient(clientID int64) error {
 	return f.CloudControlAPI.DisconnectClient(clientID)
 }
 func (f *faultyCloud) DisconnectClientIfMatch(clientID int64, nodeID, connID string) (bool, error) {
+	if h := f.hold.Swap(nil); h != nil {
+		(*h)(clientID, connID)
+	}
 	if f.down.Load() {
 		return false, errCloudDown
 	}
@@ -539,6 +558,18 @@ func (f *faultyCloud) EnsureClientOnline(clientID int64, nodeID, connID, ip, pro
 		return errCloudDown
 	}
 	return f.CloudControlAPI.EnsureClientOnline(clientID, nodeID, connID, ip, protocol, version)
+}
+
+// HoldNextDisconnect arms a one-shot scheduling seam in the session layer's offline notification
+// (CloudControlAPI.DisconnectClientIfMatch, called by RemoveControlConnection and by the callback of the
+// heartbeat-timeout sweep between its registry section and CloseConnection): the next call runs f on the
+// caller's goroutine before it goes on to the real cloud control - a slow store. f == nil disarms.
+func (s *Server) HoldNextDisconnect(f func(clientID int64, connID string)) {
+	if f == nil {
+		s.cloudFault.hold.Store(nil)
+		return
+	}
+	s.cloudFault.hold.Store(&f)
 }
 
 // SetCloudOutage switches the injected outage of the session layer's runtime-state calls on/off.
